@@ -120,7 +120,8 @@ def signature(pid, what, source, case, events, i=0, opts_tag=""):
         return "%s|%s|%s" % (source, what, stmt_tag(case, events, i))
     lit = _ev(events, "Lit")
     if lit:
-        return "%s|%s|%s|%s" % (source, what, lit.get("kind"), lit_features(lit))
+        pos = lit.get("pos", "")
+        return "%s|%s|%s|%s%s" % (source, what, lit.get("kind"), lit_features(lit), (";pos=" + pos) if pos.endswith("_par") else "")
     f, r, x = _ev(events, "Format"), _ev(events, "Reparse"), _ev(events, "Reformat")
     meta = case.get("meta", {}) or {}
     tag = meta.get("sig") or ""
